@@ -59,3 +59,62 @@ Theorem C02_block_order_irrelevant :
     forall p, parse_attrs ft fam (render bs1 t1) = Accept p <-> parse_attrs ft fam (render bs2 t2) = Accept p.
 Proof. exact parse_accept_order_irrelevant. Qed.
 Print Assumptions C02_block_order_irrelevant.
+
+(* --- the written order is the executed order, end to end ------------------------------------ *)
+From NV Require Import Lemmas.OrderLemmas2 Sem.Guard Sem.Value Sem.Eval Spec.GuardSpec.
+
+(* the sanitize(..) group: the parser's result is the position-wise image of the written items,
+   nothing dropped, duplicated or moved; two different written lists never parse to the same list *)
+Theorem C02_sanitizers_in_written_order :
+  forall (fam : family) (items : list sitem) (trailing : bool) (ss : list sanitizer),
+    parse_terminated (parse_sanitizer fam) (render_sanitize_group items trailing) = Accept ss ->
+    ss = map sem_sitem items.
+Proof. exact sanitize_group_written_order. Qed.
+Print Assumptions C02_sanitizers_in_written_order.
+
+Theorem C02_validators_in_written_order :
+  forall (ft : features) (fam : family) (ws : list vitem) (trailing : bool) (vs : list validator),
+    parse_validation ft fam (render_validate_group (map GStd ws) trailing) = Accept (RVStandard vs) ->
+    vs = map (sem_vitem fam) ws.
+Proof. exact validate_group_written_order_std. Qed.
+Print Assumptions C02_validators_in_written_order.
+
+(* the rest of the front end (validate_guard, validate_traits, gen_checks, rustc_checks) only
+   judges: an accepted declaration carries exactly the parsed lists *)
+Theorem C02_front_end_keeps_lists :
+  forall (ft : features) (sd : sdecl) (d : decl),
+    full_verdict ft sd = Accept d ->
+    exists p, parse_meta (sd_item sd) = Accept (d_family d) /\
+              parse_attrs ft (d_family d) (sd_attr sd) = Accept p /\
+              d_sans d = p_sans p /\ d_validation d = p_validation p.
+Proof. exact full_front_end_keeps_lists. Qed.
+Print Assumptions C02_front_end_keeps_lists.
+
+(* #[nutype(sanitize(items), validate(ws), derive(..))] with the blocks in any order *)
+Theorem C02_accepted_declaration_as_written :
+  forall (ft : features) (sd : sdecl) (d : decl) (bs : list wblock) (t ts tv : bool)
+         (items : list sitem) (ws : list vitem) (derives : list tok),
+    macro_verdict ft sd = Accept d -> sd_attr sd = render bs t ->
+    Permutation bs [WSanitize (render_sanitize_group items ts);
+                    WValidate (render_validate_group (map GStd ws) tv);
+                    WDerive derives] ->
+    d_sans d = map sem_sitem items /\
+    d_validation d = Some (RVStandard (map (sem_vitem (d_family d)) ws)).
+Proof. exact accepted_three_blocks_as_written. Qed.
+Print Assumptions C02_accepted_declaration_as_written.
+
+(* semantics: the constructor stores the fold of the WRITTEN sanitizers in written order and
+   reports the first WRITTEN validator that fails *)
+Theorem C02_executed_in_written_order :
+  forall (lib : fnlib) (ft : features) (sd : sdecl) (d : decl) (bs : list wblock) (t : bool)
+         (items : list sitem) (ws : list vitem) (raw : value),
+    full_verdict ft sd = Accept d -> sd_attr sd = render bs t ->
+    sanitize_written bs items -> validate_written bs ws ->
+    comparable d (run_written_sanitizers lib d items raw) = true ->
+    d_try_new lib d raw =
+    match first_written_violated lib d ws (run_written_sanitizers lib d items raw) with
+    | None => Ok (run_written_sanitizers lib d items raw)
+    | Some k => Err (EVariant k)
+    end.
+Proof. exact full_accepted_try_new_written_order. Qed.
+Print Assumptions C02_executed_in_written_order.
